@@ -3773,3 +3773,124 @@ func ruleProceedHoldsLock(r *Run, rule string) {
 		}
 	}
 }
+
+// ruleParserErrorsPropagate (R11.9): in the assembler front end every error a helper returns is
+// tested with the right polarity and leaves the function as an error: after `…, err := f(…)`
+// (or in the init of the `if`), the same statement list holds, before err is assigned again,
+// `if err != nil { return …, <non-nil error> }`. A malformed operand otherwise parses silently
+// as 0 / zero register.
+func ruleParserErrorsPropagate(r *Run, rule string) {
+	w := r.W
+	p := w.Pkg("risc")
+	if p == nil {
+		r.undecided(rule, "risc", token.NoPos, "package risc not loaded")
+		return
+	}
+	info := p.TypesInfo
+	for _, f := range p.Syntax {
+		if !strings.HasSuffix(w.Fset.Position(f.Pos()).Filename, "parser.go") {
+			continue
+		}
+		for _, d := range f.Decls {
+			fd, ok := d.(*ast.FuncDecl)
+			if !ok || fd.Body == nil || fd.Type.Results == nil {
+				continue
+			}
+			last := fd.Type.Results.List[len(fd.Type.Results.List)-1]
+			if typeName(info.TypeOf(last.Type)) != "error" {
+				continue
+			}
+			n := 0
+			returnsErr := func(list []ast.Stmt) bool {
+				for _, st := range list {
+					if rs, ok := st.(*ast.ReturnStmt); ok && len(rs.Results) > 0 {
+						lastR := rs.Results[len(rs.Results)-1]
+						if !info.Types[lastR].IsNil() {
+							return true
+						}
+					}
+				}
+				return false
+			}
+			isErrNeqNil := func(c ast.Expr, errObj types.Object) bool {
+				b, ok := ast.Unparen(c).(*ast.BinaryExpr)
+				if !ok || b.Op != token.NEQ || !info.Types[b.Y].IsNil() {
+					return false
+				}
+				id, ok := ast.Unparen(b.X).(*ast.Ident)
+				return ok && info.Uses[id] == errObj
+			}
+			var walk func(list []ast.Stmt)
+			walk = func(list []ast.Stmt) {
+				for i, st := range list {
+					// nested lists
+					switch x := st.(type) {
+					case *ast.IfStmt:
+						if as, ok := x.Init.(*ast.AssignStmt); ok {
+							if errObj := errDefinedBy(info, as); errObj != nil {
+								n++
+								r.check(isErrNeqNil(x.Cond, errObj) && returnsErr(x.Body.List), rule, fmt.Sprintf("risc.%s:error-checked#%d", declName(fd), n), as.Pos(), "the error returned by the helper is tested (err != nil) and leaves the function as an error")
+							}
+						}
+						walk(x.Body.List)
+						if e, ok := x.Else.(*ast.BlockStmt); ok {
+							walk(e.List)
+						}
+					case *ast.ForStmt:
+						walk(x.Body.List)
+					case *ast.RangeStmt:
+						walk(x.Body.List)
+					case *ast.BlockStmt:
+						walk(x.List)
+					case *ast.SwitchStmt:
+						for _, c := range x.Body.List {
+							if cc, ok := c.(*ast.CaseClause); ok {
+								walk(cc.Body)
+							}
+						}
+					case *ast.AssignStmt:
+						errObj := errDefinedBy(info, x)
+						if errObj == nil {
+							continue
+						}
+						n++
+						good := false
+						for _, nx := range list[i+1:] {
+							if as2, ok := nx.(*ast.AssignStmt); ok && errDefinedBy(info, as2) == errObj {
+								break
+							}
+							if is, ok := nx.(*ast.IfStmt); ok && is.Init == nil && isErrNeqNil(is.Cond, errObj) && returnsErr(is.Body.List) {
+								good = true
+								break
+							}
+						}
+						r.check(good, rule, fmt.Sprintf("risc.%s:error-checked#%d", declName(fd), n), x.Pos(), "the error returned by the helper is tested (err != nil) and leaves the function as an error")
+					}
+				}
+			}
+			walk(fd.Body.List)
+		}
+	}
+}
+
+// errDefinedBy: the error variable an assignment from a call defines or re-assigns (its last LHS).
+func errDefinedBy(info *types.Info, as *ast.AssignStmt) types.Object {
+	if len(as.Rhs) != 1 || len(as.Lhs) == 0 {
+		return nil
+	}
+	if _, ok := as.Rhs[0].(*ast.CallExpr); !ok {
+		return nil
+	}
+	id, ok := as.Lhs[len(as.Lhs)-1].(*ast.Ident)
+	if !ok || id.Name == "_" {
+		return nil
+	}
+	o := info.Defs[id]
+	if o == nil {
+		o = info.Uses[id]
+	}
+	if o == nil || typeName(o.Type()) != "error" {
+		return nil
+	}
+	return o
+}
